@@ -82,7 +82,10 @@ func ParsePath(path string) (PathType, PathSubType, error) {
 
 // GetRepo returns repo name
 func GetRepo(path string) (string, error) {
-	re := regexp.MustCompile("^.+/repositories/(.+)/(?:_manifests|_layers|_uploads)")
+	// Both captures are non-greedy: repository components and tags may be named
+	// "repositories", "_uploads", etc., while a repository component can never
+	// start with an underscore, so the first marker ends the repository name.
+	re := regexp.MustCompile("^.+?/repositories/(.+?)/(?:_manifests|_layers|_uploads)(?:/|$)")
 	matches := re.FindStringSubmatch(path)
 	if len(matches) < 2 {
 		return "", InvalidRegistryPathError{_repositories, path}
